@@ -296,8 +296,10 @@ func firstLine(s string) string {
 }
 
 // allocLimit is the bound "a small multiple of the input length" used to classify over-allocation:
-// 64 bytes of heap per input byte plus 256 KiB of slack for fixed-size structures and messages.
-func allocLimit(n int) uint64 { return 64*uint64(n) + 256<<10 }
+// 512 bytes of heap per input byte (a decoder that stores one 8-byte value per input BIT and grows its
+// slice by doubling stays below this) plus 1 MiB of slack for fixed-size structures and messages.
+// Count-driven allocations from hostile values are orders of magnitude above it.
+func allocLimit(n int) uint64 { return 512*uint64(n) + 1<<20 }
 
 // call classifies one call.  A timeout is confirmed with a fresh worker and a 3x budget before it
 // is reported as a hang (wall-clock noise must not become a false alarm).
